@@ -1,7 +1,7 @@
 (** C14 -- scripts execute exactly the command sequence their block structure
     prescribes; unbalanced scripts are diagnosed. Statements only. *)
 From Cicada Require Import Base.Chars Base.Peg Gen.LocustGrammar Model.Script Model.ScriptAst
-  Proofs.ScriptProofs Proofs.PegProofs Proofs.LocustParse Proofs.LocustBlocks Proofs.LocustIndent
+  Proofs.ScriptProofs Proofs.PegProofs Proofs.LocustParse Proofs.LocustBlocks Proofs.LocustIndent Proofs.LocustFull
   Model.Cmds Model.ListExec Model.CondLine Proofs.ListExecProofs Proofs.CmdsProofs Proofs.CondProofs.
 From Coq Require Import ZArith String Ascii.
 
@@ -120,7 +120,10 @@ Proof. exact parse_blocks_from. Qed.
         and before every `done` (each line its own indentation, no discipline required; none trailing:
         command lines, conditions and word lists still do not end with white space),
       - blank lines (empty, or spaces / tabs only) anywhere a statement may stand, bodies included.
-    NOT in the fragment: the `; then` / `; do` spelling (C14_parse_instances + L1b).
+      - (second half of round 9) the `; then` / `; do` spelling of any head (`if c; then`, `else if c; then`,
+        `while c; do`, `for v in ws; do` -- one blank after the `;`, as render_stmt spells it), freely mixed
+        with the newline spelling.
+    Conditions / word lists still hold no `;` of their own (cond_ok).
     For every such script the generic PEG interpreter on the regenerated grammar returns, for all
     sufficiently large fuel, the complete parse whose trimmed, EOI-stripped tree is tree_of_script
     (a calculus of parses that may stop inside a run of blanks -- pest's unrolled e+ leaves the span of a
@@ -134,6 +137,42 @@ Proof. exact parse_indented. Qed.
 Theorem C14_parse_indented_from : forall b, fragI_block b = true ->
   parse_from l_grammar L_EXP (render_block b) = PFuel \/ parse_ok b.
 Proof. exact parse_indented_from. Qed.
+
+(** the `; then` / `; do` spelling: fragI_block puts no constraint on the spelling flag of a head, so the
+    statement is the one above; named separately because the task names it. wit1 / wit2 (both spellings,
+    tabs / spaces, blank lines -- until now only computed instances) are in the fragment. *)
+Theorem C14_parse_semicolon : forall b, fragI_block b = true ->
+  parse_from l_grammar L_EXP (render_block b) = PFuel \/ parse_ok b.
+Proof. exact parse_indented_from. Qed.
+Example C14_parse_semicolon_nonvacuous :
+  fragI_block wit1 = true /\ fragI_block wit2 = true /\
+  fragI_block (BCons (SIf i0 true (S2 "test -f x") (BCons (SCmd i2 (S2 "echo y")) BNil)
+                        (AElif i0 true (S2 "false") (BCons (SWhile i2 true (S2 "seq k 0,1") (BCons (SBreak it) BNil)) BNil)
+                        (ANone i0))) BNil) = true.
+Proof. vm_compute. repeat split. Qed.
+
+(** command lines are now accepted exactly as pest accepts them (cmd_ok2 = one line, no white space at
+    either end, not starts_kw): a line may start with a keyword WORD -- only `if ` / `for ` / `else if ` /
+    `while ` (keyword + blank) and the bare words `else` / `fi` / `done` are refused. *)
+Definition wit_kw : block :=
+  BCons (SCmd i0 (S2 "fix"))
+ (BCons (SCmd i2 (S2 "elsewhere x"))
+ (BCons (SWhile i0 true (S2 "iffy") (BCons (SCmd it (S2 "done7")) (BCons (SCmd it (S2 "else x")) (BCons (SCmd i2 (S2 "fi  x")) BNil))))
+ (BCons (SCmd i0 (S2 "format c:")) BNil))).
+Example C14_parse_kwprefix_nonvacuous :
+  fragI_block wit_kw = true /\ wfp_block wit_kw = true /\ parse_ok wit_kw.
+Proof. split; [vm_compute; reflexivity|]. split; [vm_compute; reflexivity|]. prove_parse_ok. Qed.
+
+(** C14_parse_full, as far as it is a theorem: for EVERY script of the property's own domain wfp_block
+    (ScriptAst.v: any indentation, blank lines, both head spellings, any nesting) whose conditions and word
+    lists hold no `;` (csf_block), the parser with the fuel it computes from the input delivers exactly the
+    ideal tree -- or runs out of fuel (never seen by L1a / L1b; peg_fuel is not proved adequate).
+    Outside: a `;` inside a condition / word list (an and-or list `a; b` as a condition), and the fuel bound. *)
+Theorem C14_parse_full_nosemi : forall b, wfp_block b = true -> csf_block b = true ->
+  parse_from l_grammar L_EXP (render_block b) = PFuel \/ parse_ok b.
+Proof. exact parse_full_nosemi. Qed.
+Check C14_parse_full_nosemi : forall b, wfp_block b = true -> csf_block b = true ->
+  parse_from l_grammar L_EXP (render_block b) = PFuel \/ parse_ok b.
 
 (** the round-3 fragment is the special case without indentation and blank lines *)
 Theorem C14_parse_indented_extends : forall b, frag_block b = true -> fragI_block b = true.
@@ -166,6 +205,9 @@ Definition wit_ind : block :=
 Example C14_parse_indented_nonvacuous :
   fragI_block wit_ind = true /\ frag_block wit_ind = false /\ parse_ok wit_ind.
 Proof. split; [vm_compute; reflexivity|]. split; [vm_compute; reflexivity|]. prove_parse_ok. Qed.
+Example C14_parse_full_nosemi_nonvacuous :
+  wfp_block wit_ind = true /\ csf_block wit_ind = true /\ wfp_block wit2 = true /\ csf_block wit2 = true.
+Proof. vm_compute. repeat split. Qed.
 
 (** flat scripts (round 2) are the depth-0 case *)
 Theorem C14_parse_flat : forall b, frag_flat b = true ->
@@ -327,6 +369,8 @@ Print Assumptions C14_parse_partial_from.
 Print Assumptions C14_parse_indented.
 Print Assumptions C14_parse_indented_from.
 Print Assumptions C14_parse_indented_extends.
+Print Assumptions C14_parse_semicolon.
+Print Assumptions C14_parse_full_nosemi.
 Print Assumptions C14_parse_while_pos.
 Print Assumptions C14_parse_instances.
 Print Assumptions C14_anchor_sound.
